@@ -334,6 +334,66 @@ def rule_negative_wrap(ctx, prefix, fi):
                        f"legal value stays negative", key=f"negwrap:{neg}", where=loc(fi, b))
 
 
+def rule_zip_len(ctx, prefix, fi):
+    """ZIP-LEN: zip() stops at its shortest operand without a word.  Pairing a sequence whose length is a closed formula
+    (names generated over range(n), `[x] * n`) with a list that a loop grows under a data-dependent condition (one
+    `append` per *decision*, not per iteration) relies on the formula bounding the number of decisions; when it does
+    not, the trailing items of the grown list are dropped silently (boxes never written, results never placed)."""
+    import ast
+    from .model import norm, walk_no_nested, loc, parents
+    pm = parents(fi.node)
+    binds = {}
+    for n in walk_no_nested(fi.node):
+        if isinstance(n, ast.Assign) and len(n.targets) == 1 and isinstance(n.targets[0], ast.Name):
+            binds.setdefault(n.targets[0].id, []).append(n.value)
+
+    def closed(e):
+        if isinstance(e, ast.Name) and len(binds.get(e.id, [])) == 1:
+            e = binds[e.id][0]
+        if isinstance(e, ast.ListComp) and len(e.generators) == 1 and isinstance(e.generators[0].iter, ast.Call) \
+                and norm(e.generators[0].iter.func) == "range" and not e.generators[0].ifs:
+            return norm(e.generators[0].iter)
+        if isinstance(e, ast.BinOp) and isinstance(e.op, ast.Mult) and (isinstance(e.left, ast.List) or isinstance(e.right, ast.List)):
+            return norm(e)
+        return None
+
+    def grown_conditionally(e):
+        if not (isinstance(e, ast.Name) and len(binds.get(e.id, [])) == 1 and isinstance(binds[e.id][0], ast.List)
+                and not binds[e.id][0].elts):
+            return None
+        for c in walk_no_nested(fi.node):
+            if isinstance(c, ast.Call) and isinstance(c.func, ast.Attribute) and c.func.attr == "append" \
+                    and isinstance(c.func.value, ast.Name) and c.func.value.id == e.id:
+                p, in_loop, cond = pm.get(c), False, None
+                while p is not None and p is not fi.node:
+                    if isinstance(p, ast.If) and cond is None:
+                        cond = p
+                    if isinstance(p, (ast.For, ast.While)):
+                        in_loop = True
+                        break
+                    p = pm.get(p)
+                if in_loop and cond is not None:
+                    return cond
+        return None
+    for z in walk_no_nested(fi.node):
+        if not (isinstance(z, ast.Call) and norm(z.func) == "zip" and len(z.args) >= 2):
+            continue
+        cl = [(a, closed(a)) for a in z.args]
+        gr = [(a, grown_conditionally(a)) for a in z.args]
+        cl = [(a, t) for a, t in cl if t]
+        gr = [(a, c) for a, c in gr if c is not None]
+        if cl and gr:
+            # a length test relating the two anywhere in the function discharges the obligation
+            names = {norm(a) for a, _ in cl} | {norm(a) for a, _ in gr}
+            tested = any(isinstance(t, (ast.Compare, ast.Assert)) and sum(1 for x in ast.walk(t) if isinstance(x, ast.Call)
+                         and norm(x.func) == "len" and x.args and norm(x.args[0]) in names) >= 2 for t in ast.walk(fi.node))
+            ctx.check(tested, f"{prefix}.ZIP-LEN", fi.site, "zip of a generated sequence with a grown list is guarded by a length test",
+                      f"`{norm(z)[:70]}` pairs `{norm(cl[0][0])}` (length fixed by `{cl[0][1][:50]}`) with `{norm(gr[0][0])}`, "
+                      f"which grows by one entry each time `{norm(gr[0][1].test)[:60]}` holds: nothing relates the two lengths, "
+                      f"and zip drops the trailing entries of the longer one silently", key="zip-len:" + norm(gr[0][0]),
+                      where=loc(fi, z), semantic=True)
+
+
 def sweep(ctx):
     if ctx.prop in NO_SWEEP:
         return
@@ -352,7 +412,8 @@ def sweep(ctx):
         rule_unbound(ctx, ctx.prop, fi)
         rule_negative_wrap(ctx, ctx.prop, fi)
         guards.rule_new_guard(ctx, ctx.prop, fi)
+        rule_zip_len(ctx, ctx.prop, fi)
     nh = history.sweep(ctx, ctx.prop, fns)
     ctx.note("generic_lints", {"anchored_functions": len(anchored), "functions_swept_(anchored_and_reachable)": len(fns),
-                               "lints": ["LOOP-STATE", "LEVEL-TABLE", "LIB-PITFALL", "U1", "U2", "NEG-WRAP", "NEW-GUARD",
+                               "lints": ["LOOP-STATE", "LEVEL-TABLE", "LIB-PITFALL", "U1", "U2", "NEG-WRAP", "NEW-GUARD", "ZIP-LEN",
                                          "MODULE-STATE", "INSTANCE-STATE", "MEMO-ORDER", "INSTANCE-MEMO"]})
